@@ -7,7 +7,7 @@ print("| change | what it does (from its meta.json) | obligation(s) of its own p
 print("|---|---|---|---|")
 missed = []
 for m in sorted(M):
-    if not os.path.isdir(f"{V}/seeded/{m}"):
+    if not os.path.isdir(f"{V}/seeded/{m}") or m == "retired":
         continue
     own = m[:3]
     try:
